@@ -5,8 +5,8 @@
 EXTENDS TeakAddr, Json, IOUtils, TLC
 
 Log == ndJsonDeserialize(IOEnv.TRACE)
-VARIABLE l
-Rec == Log[l]
+VARIABLE vL
+Rec == Log[vL]
 
 ApplyChg(pre, chg) == [i \in 1 .. Len(pre) |->
                           IF \E j \in 1 .. Len(chg) : chg[j][1] = i
@@ -31,9 +31,9 @@ AnnOk(rec) ==
 
 RecOk(rec) == IF rec.e = "Set" THEN SetOk(rec) ELSE AnnOk(rec)
 
-TraceInit == l = 1
-TraceNext == l <= Len(Log) /\ RecOk(Rec) /\ l' = l + 1
-TraceSpec == TraceInit /\ [][TraceNext]_l
+TraceInit == vL = 1
+TraceNext == vL <= Len(Log) /\ RecOk(Rec) /\ vL' = vL + 1
+TraceSpec == TraceInit /\ [][TraceNext]_vL
 TraceAccepted ==
     /\ PrintT(<<"TRACE_MATCHED", TLCGet("stats").diameter - 1, Len(Log)>>)
     /\ TLCGet("stats").diameter - 1 = Len(Log)
